@@ -1,5 +1,6 @@
 import SMV.Props.C02
 import SMV.Props.C03
+import SMV.Props.C01
 /-!
 # C11 — Initial activation happens once; a stored state is resumed untouched
 
@@ -100,10 +101,11 @@ theorem C11_async_initial_first (c : Cfg) (e : EventId) (hcur : c.cur = none) (h
 appends only the assignment of the start state's value and that state's enter callbacks
 (`InitEntry`, C02) and stores that value. -/
 theorem C11_initial_block (m : Machine) (t : Trigger) (ht : t.event = initialEv) (s : StateId)
-    (hs : initialTarget m = .ok s) (c : Cfg) :
+    (hs : initialTarget m = .ok s) (c : Cfg) (hc : c.cur = none) :
     LogAll (InitEntry m t s) c (trigger nestedRtc m t c).1 := by
   unfold trigger
-  simp only [ht, beq_self_eq_true, if_true]
+  rw [bind_ok (x := EM.get) (c := c) (a := c) rfl]
+  simp only [EM.get, ht, hc, beq_self_eq_true, Option.isNone_none, Bool.and_self, if_true]
   have := C02_initial m t s hs c
   rw [EM.bind_apply]
   generalize activateInitial nestedRtc m t c = r at this
@@ -122,7 +124,32 @@ theorem SomeStays.lift : Lift SomeStays (fun _ _ => True) (fun _ => True) nested
 theorem C11_state_stays (m : Machine) (t : Trigger) : Resp SomeStays (trigger nestedRtc m t) :=
   trigger_lift SomeStays.lift m t
     (fun _ _ _ => ⟨fun cb _ => entryOk_true _ _ cb, fun _ _ => rfl⟩)
-    (fun _ _ _ _ _ => ⟨fun ph cb _ => entryOk_true _ ph cb, fun _ _ => rfl⟩)
+    (fun _ _ _ _ => ⟨fun ph cb _ => entryOk_true _ ph cb, fun _ _ => rfl⟩)
+
+/-- **C11 (activating again is a no-op, also by name).** On a machine that holds a state the
+reserved event `__initial__` is an ordinary undeclared event: it does not re-run the activation. -/
+theorem C11_initial_name_inert (h : Nested) (m : Machine) (t : Trigger) (c : Cfg) (s : StateId)
+    (hs : c.cur.bind (lookupState m) = some s) (hno : ∀ tr ∈ out m s, tr.events.contains t.event = false) :
+    (trigger h m t c).1 = c := by
+  have hsome : c.cur.isNone = false := by
+    cases hc : c.cur with
+    | none => rw [hc] at hs; simp at hs
+    | some v => rfl
+  unfold trigger
+  rw [bind_ok (x := EM.get) (c := c) (a := c) rfl]
+  simp only [EM.get, hsome, Bool.and_false, Bool.false_eq_true, if_false, hs]
+  have hcands : ∀ (trs : List Transn), (∀ tr ∈ trs, tr.events.contains t.event = false) →
+      tryCands h m t trs c = (c, .ok none) := by
+    intro trs htrs
+    induction trs with
+    | nil => rfl
+    | cons tr rest ih =>
+      rw [tryCands_cons_skip h m t tr rest (htrs tr (by simp))]
+      exact ih fun tr' h' => htrs tr' (by simp [h'])
+  rw [bind_ok (a := none) (by rw [hcands _ hno])]
+  rw [hcands _ hno]
+  simp only
+  split <;> rfl
 
 /-- the initial activation stores the start state's value before any enter callback runs -/
 theorem C11_initial_stores (m : Machine) (t : Trigger) (s : StateId) (hs : initialTarget m = .ok s) (c : Cfg) :
